@@ -142,11 +142,11 @@ prop(
     memcheck=1,
     rule="one evaluation = one pause-point experiment on real threads: operation A is parked before its k-th storage write, operation B runs on another thread, A is released, and the final state "
          "(script set with numbers, filter progress, persisted and in-memory matched blocks, index digest) is compared with the two serial outcomes computed on replays of the same S0; "
-         "every ordered pair of {set_scripts all / partial / delete, BlockFilters processing, SendBlock completing a batch} x every write boundary k of A is run; a cell = (A, B, k, B finished while A parked?, lock free at the pause?, serial order matched)",
-    sizes=tiers(16, 1, 75, 16, 12, 1200, min_evals=40, min_cells=20),
+         "every ordered pair of {set_scripts all / partial / delete, BlockFilters processing, SendBlock completing a batch, SendLastStateProof with a reorg section (fork rollback)} x every write boundary k of A is run; a cell = (A, B, k, B finished while A parked?, lock free at the pause?, serial order matched)",
+    sizes=tiers(16, 1, 75, 16, 60, 1200, min_evals=40, min_cells=20),
     technique="runtime schedule control through the before_write hook (park / release on channels), serial-outcome comparison, lock probe at the pause point, /proc thread-state deadlock detector",
-    level_text="For every ordered pair of the five state-changing operations and every internal write boundary of the first, started from a prepared mid-sync state (scripts registered, filter batch due, matched blocks pending with one block outstanding), the outcome equals one of the two serial outcomes and both threads finish; whether the second operation could run while the first was parked (i.e. whether the global lock was held at that boundary) is recorded per cell.",
-    level_note="fork rollback is not among the paired operations (it needs a multi-message reorg proof; its lock scope is exercised single-threaded by C04) and reader snapshot consistency (db.snapshot in get_cells / get_cells_capacity) is not judged: a mutant that removes a snapshot is out of reach of this check; schedules inside one RocksDB call are not controlled",
+    level_text="For every ordered pair of the six state-changing operations (incl. the fork rollback of commit_prove_state) and every internal write boundary of the first, started from a prepared mid-sync state (scripts registered, filter batch due, matched blocks pending with one block outstanding), the outcome equals one of the two serial outcomes and both threads finish; whether the second operation could run while the first was parked (i.e. whether the global lock was held at that boundary) is recorded per cell.",
+    level_note="the fork rollback operation forks two blocks below the proved tip while the filter progress is far below it, so it clears the in-memory matched blocks and rewinds the progress but has no index entries to delete (index rollback itself is C04 / C08); reader snapshot consistency (db.snapshot in get_cells / get_cells_capacity) is not judged: a mutant that removes a snapshot is out of reach of this check; schedules inside one RocksDB call are not controlled",
 )
 
 prop(
